@@ -496,6 +496,12 @@ func TestVerifC13Caps(t *testing.T) {
 			if !after1 && nRecent > recentlyConnectedPeerMaxAddrs {
 				r.Violate("recently-connected-cap-exceeded", fmt.Sprintf("%d identify-carried addresses retained for R after the last disconnect was processed (cap %d)", nRecent, recentlyConnectedPeerMaxAddrs), replay)
 			}
+			// a message consumed AFTER the last disconnect adds its addresses to a peer without connection: then the cap
+			// is the default peerstore's per-peer cap on unconnected addresses (64 in this tree; the large peerstore of
+			// the other configuration has none and is only bound by identify's own limit, checked by the audit above)
+			if after1 && cs["peerstore"] == c13PsDefault && nRecent > c13DefaultUnconnectedCap {
+				r.Violate("unconnected-peer-address-cap-exceeded", fmt.Sprintf("%d identify-carried addresses retained for R, to whom no connection exists (message consumed after the last disconnect; cap of the default peerstore %d)", nRecent, c13DefaultUnconnectedCap), replay)
+			}
 			time.Sleep(peerstore.RecentlyConnectedAddrTTL + c13Eps)
 			synctest.Wait()
 			if left, smp := c13CarriedIn(f.ps.Addrs(R.ID), ex); left > 0 {
@@ -523,6 +529,9 @@ func TestVerifC13Caps(t *testing.T) {
 
 // c13Bucket2 does not separate "<cap" from "=cap": which 20 addresses Disconnected keeps depends on map order
 // (a pre-existing non-identify address may be among them), the histogram must not.
+// c13DefaultUnconnectedCap: pstoremem's defaultMaxAddrsPerPeer (unexported there).
+const c13DefaultUnconnectedCap = 64
+
 func c13Bucket2(n, cap int) string {
 	switch {
 	case n == 0:
